@@ -617,21 +617,21 @@ Definition model_switch (r : routine) : switch :=
   | RtF32 => sw (
       on digit_tags (ADigit NtF32) ++ on ["n"; "e"; "f"]%byte (AConst C0) ++ on ["t"]%byte (AConst C1) ++
       on ["i"]%byte (AReadInt KInt NtF32) ++ on ["l"; "d"]%byte (AReadFloat true NtF32) ++
-      on ["N"]%byte (AConst CNaN) ++ on ["I"]%byte (AInf NtF32) ++
+      on ["N"]%byte (ANaN NtF32) ++ on ["I"]%byte (AInf NtF32) ++
       on ["u"]%byte (AParseChar PF32 0 NtF32) ++ on ["s"]%byte (AParseStr PF32 0 NtF32))
   | RtF64 => sw (
       on digit_tags (ADigit NtF64) ++ on ["n"; "e"; "f"]%byte (AConst C0) ++ on ["t"]%byte (AConst C1) ++
       on ["i"]%byte (AReadInt KInt NtF64) ++ on ["l"; "d"]%byte (AReadFloat false NtF64) ++
-      on ["N"]%byte (AConst CNaN) ++ on ["I"]%byte (AInf NtF64) ++
+      on ["N"]%byte (ANaN NtF64) ++ on ["I"]%byte (AInf NtF64) ++
       on ["u"]%byte (AParseChar PF64 0 NtF64) ++ on ["s"]%byte (AParseStr PF64 0 NtF64))
   | RtC64 => sw (
       on digit_tags (ADigit NtC64) ++ on ["n"; "e"; "f"]%byte (AConst C0) ++ on ["t"]%byte (AConst C1) ++
-      on ["N"]%byte (AConst CNaN) ++ on ["i"]%byte (AReadInt KInt32 NtC64) ++
+      on ["N"]%byte (ANaN NtC64) ++ on ["i"]%byte (AReadInt KInt32 NtC64) ++
       on ["l"; "d"]%byte (AReadFloat true NtC64) ++ on ["I"]%byte (AInf NtC64) ++ on ["a"]%byte (ACall FComplexList) ++
       on ["u"]%byte (AParseChar PC64 0 NtC64) ++ on ["s"]%byte (AParseStr PC64 0 NtC64))
   | RtC128 => sw (
       on digit_tags (ADigit NtC128) ++ on ["e"; "f"]%byte (AConst C0) ++ on ["t"]%byte (AConst C1) ++
-      on ["N"]%byte (AConst CNaN) ++ on ["i"]%byte (AReadInt KInt32 NtC128) ++
+      on ["N"]%byte (ANaN NtC128) ++ on ["i"]%byte (AReadInt KInt32 NtC128) ++
       on ["l"; "d"]%byte (AReadFloat false NtC128) ++ on ["I"]%byte (AInf NtC128) ++ on ["a"]%byte (ACall FComplexList) ++
       on ["u"]%byte (AParseChar PC128 0 NtC128) ++ on ["s"]%byte (AParseStr PC128 0 NtC128))
   | RtBigInt => sw (
@@ -691,7 +691,7 @@ Definition model_switch (r : routine) : switch :=
       on ["a"]%byte (ACall FListAsMap) ++ on ["o"]%byte (ACall FObjectAsMap))
   | RtStruct => sw (on ["o"]%byte (ACall FObject) ++ on ["m"]%byte (ACall FMapAsObject) ++ on ["e"]%byte (AConst CZero))
   | RtList => sw (on ["n"]%byte (AConst CNil) ++ on ["e"]%byte (AConst CNewList) ++ on ["a"]%byte (ACall FListList))
-  | RtPtr => {| sw_cases := on ["n"]%byte (ACall FPtrNull); sw_default := ACall FPtrElem |}
+  | RtPtr => {| sw_cases := on ["n"]%byte (ACall FPtrNull) ++ on ["r"]%byte (ACall FPtrRef); sw_default := ACall FPtrElem |}
   end.
 
 (* switches on decoder options inside decodeInterface's helpers *)
@@ -951,7 +951,12 @@ Definition run_action (s : sleaf) (a : action) (w : wire) : sres :=
           end
       | _ => SUnk 7
       end
-  | ANaN d => match d with NtF32 => SV (XF32 FNaN) | NtF64 => SV (XF64 FNaN) | _ => SUnk 8 end
+  | ANaN d =>
+      match d with
+      | NtF32 => SV (XF32 FNaN) | NtF64 => SV (XF64 FNaN)
+      | NtC64 => SV (XC64 FNaN fzero) | NtC128 => SV (XC128 FNaN fzero)
+      | _ => SUnk 8
+      end
   | AFail => SE ENaNInf
   | ABoolText =>
       match num_text w with
@@ -1061,7 +1066,7 @@ Fixpoint key_eqb (a b : xval) {struct a} : bool :=
 
 Fixpoint hashable (v : xval) : bool :=
   match v with
-  | XSliceH _ _ | XMapH _ | XBytes _ | XBigInt _ | XBigFloat _ | XBigRat _ => false
+  | XSliceH _ _ | XMapH _ | XSlice _ | XMap _ | XBytes _ | XBigInt _ | XBigFloat _ | XBigRat _ => false
   | XIface t x => match t, x with TSlice _, XNil | TMap _ _, XNil | TBytes, XNil => false | _, _ => hashable x end
   | XArr vs | XStruct _ vs => forallb hashable vs
   | _ => true
@@ -1596,7 +1601,7 @@ Definition dec_scalar_ptr (s : sleaf) (t : gtype) (w : wire) (pl : place) (st : 
   | _ =>
       let et := match t with TPtr e => e | _ => t end in
       let '(st1, c) := st_alloc st (zero_of et) in
-      bindd (dec_scalar s t w (c, []) st1) (fun st2 => wr_or_panic st2 pl (XPtrTo c []))
+      bindd (dec_scalar s et w (c, []) st1) (fun st2 => wr_or_panic st2 pl (XPtrTo c []))
   end.
 
 Definition container_const (c : cst) (t : gtype) (pl : place) (st : dstate) : dres :=
@@ -1741,6 +1746,9 @@ Definition dec_list (w : wire) (pl : place) (st : dstate) : dres :=
 Definition dec_gen_ptr (e : gtype) (w : wire) (pl : place) (st : dstate) : dres :=
   match sw_lookup (model_switch RtPtr) (tag_of w) with
   | ACall FPtrNull => wr_or_panic st pl XNil
+  | ACall FPtrRef =>
+      (* the referenced object is shared: ReadReference(p) with the pointer type as destination *)
+      match w with WRef k => read_reference orc te (TPtr e) k pl st | _ => DUnk 64 end
   | ACall FPtrElem =>
       rd_or st pl (fun old =>
         match old with
